@@ -137,22 +137,95 @@ _get_sys_path = Contract(
     ],
 )
 
+def _replay_swm(inp):
+    """the real Importer._sys_path_with_modifications twice on an inference state whose get_sys_path hands out ONE list
+    object per flag (as the memoised Project._get_sys_path does): the second answer must equal the first"""
+    from pyvc.replay import run_real
+    from jedi.inference import imports as imp
+    memo = {}
+
+    class IS:
+        def get_sys_path(self, add_init_paths=False, **kw):
+            return memo.setdefault(add_init_paths, ['/env/lib', '/proj'])
+    real = imp.sys_path.check_sys_path_modifications
+    imp.sys_path.check_sys_path_modifications = lambda ctx: ['/proj/vendor']
+    try:
+        im = imp.Importer.__new__(imp.Importer)
+        im._inference_state = IS()
+        im._module_context = object()
+        im._fixed_sys_path = inp.get('fixed')
+
+        def run():
+            a = list(im._sys_path_with_modifications(is_completion=inp['completion']))
+            b = list(im._sys_path_with_modifications(is_completion=inp['completion']))
+            return {'first': a, 'second': b, 'memo': {k: list(v) for k, v in memo.items()}}
+        out = run_real(run)
+    finally:
+        imp.sys_path.check_sys_path_modifications = real
+    exp = inp['fixed'] if inp.get('fixed') is not None else ['/env/lib', '/proj', '/proj/vendor']
+    return {'EXPECTED': exp}, out
+
+
+_swm = Contract(
+    id='C20.Importer._sys_path_with_modifications', prop='C20',
+    clause='import resolution uses the effective path of the project (+ the sys.path edits detected in the importing '
+           'module, appended for THIS lookup only): the memoised effective path itself is never changed, so every '
+           'module of a Script is resolved against the same documented path',
+    file='jedi/inference/imports.py', qualname='Importer._sys_path_with_modifications',
+    params={'self': Obj('Importer20'), 'is_completion': BOOL}, families=['Importer20', 'IS20b', 'ModCtx20'],
+    ret=Seq(STR),
+    ensures=[
+        'implies(self._fixed_sys_path is not None, result == the(self._fixed_sys_path))',
+        # the effective path first, unchanged and in order; then exactly the detected edits, in order
+        'implies(self._fixed_sys_path is None, '
+        'result[:len(self._inference_state.get_sys_path(add_init_paths=not is_completion))] == '
+        'self._inference_state.get_sys_path(add_init_paths=not is_completion))',
+        'implies(self._fixed_sys_path is None, len(result) == '
+        'len(self._inference_state.get_sys_path(add_init_paths=not is_completion)) + '
+        'len(check_sys_path_modifications(self._module_context)))',
+        'implies(self._fixed_sys_path is None, all(result[len(self._inference_state.get_sys_path(add_init_paths=not is_completion)) + i] '
+        '== str(check_sys_path_modifications(self._module_context)[i]) '
+        'for i in range(len(check_sys_path_modifications(self._module_context)))))',
+    ],
+    witness={}, replay=_replay_swm, concrete_only=True,
+    witness_library=[{'completion': False}, {'completion': True}, {'completion': False, 'fixed': ['/fixed']}],
+    concrete_ensures=['result["first"] == EXPECTED', 'result["second"] == EXPECTED',
+                      'all(v == ["/env/lib", "/proj"] for v in result["memo"].values())'],
+    notes='get_sys_path returns the list memoised by Project._get_sys_path by reference (shared_result): an in-place '
+          'mutation of it is a failed frame obligation',
+)
+
 FAMILIES = [
     Family('Project20', attrs={'_path': PATH, '_sys_path': Opt(Seq(STR)), '_smart_sys_path': BOOL,
                                '_django': BOOL, 'added_sys_path': Seq(STR), '_environment_path': Opt(STR),
                                '_load_unsafe_extensions': BOOL},
            methods={'_get_base_sys_path': FnSpec('Project._get_base_sys_path',
                                                  params=[('inference_state', Obj('InfState20'))], ret=Seq(STR),
-                                                 pure=True, assumed=False, ensures=['"" not in result or True'])}),
+                                                 pure=True, assumed=False, shared_result=True,
+                                                 note='memoised per inference state: the same list on every call')}),
     Family('InfState20', attrs={'environment': Obj('Env20'), 'script_path': Opt(PATH)}),
     Family('Env20', methods={'get_sys_path': FnSpec('Environment.get_sys_path', ret=Seq(STR), pure=True,
-                                                    assumed=True)}),
+                                                    assumed=True, shared_result=True,
+                                                    note='memoised on the environment: the same list on every call')}),
 ]
 
-CONTRACTS = [_dedup, _base, _get_sys_path]
+CONTRACTS = [_dedup, _base, _get_sys_path, _swm]
 
 
 def register(reg):
+    reg.add_family(Family('Importer20', attrs={'_inference_state': Obj('IS20b'), '_module_context': Obj('ModCtx20'),
+                                               '_fixed_sys_path': Opt(Seq(STR))}))
+    reg.add_family(Family('ModCtx20'))
+    reg.add_family(Family('IS20b', methods={'get_sys_path': FnSpec(
+        'InferenceState.get_sys_path', params=[('add_init_paths', BOOL)], defaults={'add_init_paths': False},
+        ret=Seq(STR), pure=True, assumed=False, shared_result=True,
+        note='forwards to the memoised Project._get_sys_path: the SAME list object on every call')}))
+    from pyvc.values import MNS, MFn
+    _csm = FnSpec('check_sys_path_modifications', params=[('module_context', Obj('ModCtx20'))], ret=Seq(PATH),
+                  pure=True, assumed=True, note='sys.path edits found statically in the importing module')
+    reg.names['check_sys_path_modifications'] = _csm
+    reg.names['sys_path'] = MNS('sys_path', {'check_sys_path_modifications': MFn('spec', 'check_sys_path_modifications',
+                                                                                 spec=_csm)})
     reg.names['discover_buildout_paths'] = FnSpec(
         'discover_buildout_paths', params=[('inference_state', Obj('InfState20')), ('script_path', PATH)],
         ret=Seq(PATH), pure=True, assumed=True, note='buildout discovery (inference); content not decided')
